@@ -15,7 +15,7 @@
 //! the rest counted): F13 `NaiveDateTime Display does not parse back` (every value), F25
 //! `DateTime<FixedOffset> with out-of-range local date does not parse back` (only values whose wall-clock
 //! date lies outside `NaiveDate::MIN..=MAX`).  Every other round-trip failure has its own what-string.
-use super::c01::{yof, MAX_YEAR, MIN_YEAR};
+use super::c01::{month_len, yof, MAX_YEAR, MIN_YEAR};
 use super::c13::err_kind;
 use crate::ctx::*;
 use chrono::format::ParseError;
@@ -420,10 +420,15 @@ fn report_f25(c: &mut Ctx, z: &DateTime<FixedOffset>, dbg: &Text, dsp: &Text, re
                 &format!("{:?}, expected {:?}, for {}", txt(x), want, sz(z)),
             );
         }
+        // `fixed_out_of_range_never_parses_back`: Err(OutOfRange), always.  The only other answer that is
+        // not a failure is THE value itself, same instant and same offset (finding F25 repaired); a reader
+        // that returns some other value, another error kind or panics fails here.
         let got = rd_dtf(txt(x));
-        if got != "err OutOfRange" && !got.starts_with("ok ") {
+        if got == format!("ok {}", sz(z)) {
+            c.count("dtf:out-of-range-local-date-reads-back-as-the-value(F25 repaired)");
+        } else if got != "err OutOfRange" {
             c.fail(
-                &format!("DateTime<FixedOffset> {} of an out-of-range local date: FromStr answers neither a value nor Err(OutOfRange)", form),
+                &format!("DateTime<FixedOffset> {} of an out-of-range local date: FromStr answers neither the value nor Err(OutOfRange)", form),
                 &format!("{} text {:?} -> {}", sz(z), txt(x), got),
             );
         }
@@ -441,6 +446,176 @@ fn report_f25(c: &mut Ctx, z: &DateTime<FixedOffset>, dbg: &Text, dsp: &Text, re
         } else {
             c.count("dtf:out-of-range-local-date-parses-back");
         }
+    }
+}
+
+
+// ---- exhaustive blocks as digests (ops `tx.blockdate`, `tx.blocktime`) --------------------------------
+fn mix(h: u64, v: i64) -> u64 {
+    (h ^ (v as u64)).wrapping_mul(1099511628211)
+}
+const SEED: u64 = 14695981039346656037;
+fn mix_text(h: u64, t: &Text) -> u64 {
+    match t {
+        Ok(Ok(s)) => s.bytes().fold(mix(h, s.len() as i64), |h, b| mix(h, b as i64)),
+        Ok(Err(())) => mix(h, -1),
+        Err(()) => mix(h, -2),
+    }
+}
+/// one value: `Debug` text, its reading, `Display` text, and its reading when the two texts differ
+fn mix_forms(h: u64, dbg: &Text, dsp: &Text, rd: &dyn Fn(u64, &str) -> u64) -> u64 {
+    let mut h = mix_text(h, dbg);
+    h = match dbg {
+        Ok(Ok(s)) => rd(h, s),
+        _ => mix(h, -3),
+    };
+    h = mix_text(h, dsp);
+    if dsp == dbg {
+        return h;
+    }
+    match dsp {
+        Ok(Ok(s)) => rd(h, s),
+        _ => mix(h, -3),
+    }
+}
+fn mix_date_read(h: u64, s: &str) -> u64 {
+    match guard(|| s.parse::<NaiveDate>()) {
+        Ok(Ok(d)) => mix(h, yof(&d)),
+        Ok(Err(_)) => mix(h, -1),
+        Err(()) => mix(h, -2),
+    }
+}
+fn mix_time_read(h: u64, s: &str) -> u64 {
+    match guard(|| s.parse::<NaiveTime>()) {
+        Ok(Ok(t)) => mix(mix(h, t.num_seconds_from_midnight() as i64), t.nanosecond() as i64),
+        _ => mix(h, -1),
+    }
+}
+/// EVERY date of the years `y0..=y1`, walked by an independent calendar (`month_len` of c01: the
+/// Gregorian leap rule, nothing of chrono's): digest of the texts and readings for the model, and the
+/// direct oracle on each date — the date chrono has on that ordinal is the one of that (year, month,
+/// day), follows its predecessor by `succ_opt`, prints as the independent writer `ref_date` says in
+/// both forms, and `FromStr` reads the text back as that date.  Returns (digest, dates seen, first
+/// failure, last date).
+fn block_date(y0: i32, y1: i32, before: Option<NaiveDate>) -> (u64, u64, Option<(&'static str, String)>, Option<NaiveDate>) {
+    let mut h = SEED;
+    let mut bad: Option<(&'static str, String)> = None;
+    let mut seen = 0u64;
+    // `before`: the last date of the preceding block when the blocks abut
+    let mut prev: Option<NaiveDate> = before;
+    for y in y0..=y1 {
+        let mut o = 0u32;
+        for m in 1..=12u32 {
+            for dd in 1..=month_len(y as i64, m as i64) as u32 {
+                o += 1;
+                let d = match guard(|| NaiveDate::from_yo_opt(y, o)) {
+                    Ok(Some(d)) => d,
+                    _ => {
+                        if (MIN_YEAR..=MAX_YEAR).contains(&y) && bad.is_none() {
+                            bad = Some(("NaiveDate: a day of the calendar is not a NaiveDate", format!("{}-{}-{} ordinal {}", y, m, dd, o)));
+                        }
+                        continue;
+                    }
+                };
+                seen += 1;
+                let (dbg, dsp) = (dbg_text(&d), dsp_text(&d));
+                h = mix_forms(h, &dbg, &dsp, &mix_date_read);
+                if bad.is_none() {
+                    let want = ref_date(y, m, dd);
+                    if guard(|| NaiveDate::from_ymd_opt(y, m, dd)) != Ok(Some(d)) {
+                        bad = Some(("NaiveDate: from_yo_opt and from_ymd_opt disagree on a day of the calendar", format!("{}-{}-{} ordinal {}", y, m, dd, o)));
+                    } else if prev.is_some() && guard(|| prev.unwrap().succ_opt()) != Ok(Some(d)) {
+                        bad = Some(("NaiveDate: succ_opt does not lead to the next day of the calendar", format!("{}-{}-{}", y, m, dd)));
+                    } else if txt(&dbg) != want {
+                        bad = Some(("NaiveDate text is not [sign]YYYY-MM-DD with a sign exactly outside 0..=9999", format!("{:?} for {}-{}-{} (exhaustive walk)", txt(&dbg), y, m, dd)));
+                    } else if txt(&dsp) != want {
+                        bad = Some(("NaiveDate Display text differs from the Debug text", format!("{:?} for {}-{}-{} (exhaustive walk)", txt(&dsp), y, m, dd)));
+                    } else if guard(|| want.parse::<NaiveDate>().ok() == Some(d)) != Ok(true) {
+                        bad = Some(("NaiveDate Debug does not parse back", format!("yof {} text {:?} (exhaustive walk)", yof(&d), want)));
+                    }
+                }
+                prev = Some(d);
+            }
+        }
+    }
+    (h, seen, bad, prev)
+}
+/// representatives of the fraction classes (none, 3, 6, 9 digits; class ends; zeros inside the printed
+/// digits) — the same list as `blockFracs` of lean/Chrono/Drv/TextForms.lean
+const BLOCK_FRACS: [u32; 18] = [
+    0, 1, 999, 1000, 1001, 999_000, 999_999, 1_000_000, 1_000_001, 10_000_000, 100_000_000, 123_456_789, 500_000_000, 999_000_000, 999_999_000,
+    999_999_999, 120_000_000, 123_456_000,
+];
+/// every second `s0..=s1` of the day × `BLOCK_FRACS`, and the leap representation of each on a second 59
+fn block_time(s0: u32, s1: u32) -> (u64, u64, Option<(&'static str, String)>) {
+    let mut h = SEED;
+    let mut bad: Option<(&'static str, String)> = None;
+    let mut seen = 0u64;
+    for secs in s0..=s1 {
+        for leap in [0u32, NS] {
+            if leap != 0 && secs % 60 != 59 {
+                continue;
+            }
+            for f in BLOCK_FRACS {
+                let t = mk_time(secs, f + leap);
+                seen += 1;
+                let (dbg, dsp) = (dbg_text(&t), dsp_text(&t));
+                h = mix_forms(h, &dbg, &dsp, &mix_time_read);
+                if bad.is_none() {
+                    let want = ref_time(secs, f + leap);
+                    if t.num_seconds_from_midnight() != secs || t.nanosecond() != f + leap {
+                        bad = Some(("NaiveTime: the constructors do not build the requested second and fraction", format!("{} {}", secs, f + leap)));
+                    } else if txt(&dbg) != want {
+                        bad = Some(("NaiveTime text is not HH:MM:SS[.fff[fff[fff]]] with minimal fraction and second+1 for a leap second", format!("{:?} for {} (exhaustive walk)", txt(&dbg), st(&t))));
+                    } else if txt(&dsp) != want {
+                        bad = Some(("NaiveTime Display text differs from the Debug text", format!("{:?} for {} (exhaustive walk)", txt(&dsp), st(&t))));
+                    } else if guard(|| want.parse::<NaiveTime>().ok() == Some(t)) != Ok(true) {
+                        bad = Some(("NaiveTime Debug does not parse back", format!("{} text {:?} (exhaustive walk)", st(&t), want)));
+                    }
+                }
+            }
+        }
+    }
+    (h, seen, bad)
+}
+
+/// one zone-aware value of the deterministic boundary blocks (whole-minute offset, leap second only on
+/// second 59): correspondence ops `tx.dtf` / `tx.dtf.local`, the text against the independently computed
+/// wall clock, and the round trip decided by the wall-clock year alone — in range: both forms read back
+/// as the same instant with the same offset; outside (`want_in_range` = Some(false) where the caller
+/// knows it): `report_f25`, i.e. Err(OutOfRange)
+fn check_zoned(c: &mut Ctx, z: &DateTime<FixedOffset>, want_in_range: Option<bool>, tag: &str, f25_reported: &mut u32) {
+    let off = z.offset().local_minus_utc();
+    let (dbg, dsp) = (dbg_text(z), dsp_text(z));
+    c.op(&format!("tx.dtf {}", sz(z)), &format!("{} | {}", both(&dbg, &rd_dtf), both(&dsp, &rd_dtf)));
+    c.op(&format!("tx.dtf.local {}", sz(z)), &local_reading(z));
+    let local_ok = guard(|| z.naive_utc().checked_add_offset(*z.offset()).is_some()) == Ok(true);
+    let (y, _, _, _, _) = wall_clock(z);
+    let in_range = MIN_YEAR as i64 <= y && y <= MAX_YEAR as i64;
+    if local_ok != in_range {
+        c.fail("DateTime<FixedOffset>: checked_add_offset disagrees with the wall-clock year being in range", &format!("{} {} wall-clock year {} local_ok {}", tag, sz(z), y, local_ok));
+    }
+    if let Some(w) = want_in_range {
+        if w != in_range {
+            c.fail("DateTime<FixedOffset> boundary block: the independent wall clock is not on the expected side of NaiveDate's range", &format!("{} {} wall-clock year {}", tag, sz(z), y));
+        }
+    }
+    let (rdbg, rdsp) = ref_zoned(z);
+    if txt(&dbg) != rdbg || txt(&dsp) != rdsp {
+        c.fail("DateTime<FixedOffset> text is not the text of the independently computed wall clock", &format!("{} {:?} / {:?}, expected {:?} / {:?}, for {}", tag, txt(&dbg), txt(&dsp), rdbg, rdsp, sz(z)));
+    }
+    if in_range {
+        c.count(&format!("dtf:{},local-in-range", tag));
+        for (form, x) in [("Debug", &dbg), ("Display", &dsp)] {
+            let back = guard(|| txt(x).parse::<DateTime<FixedOffset>>().ok());
+            let same = matches!(&back, Ok(Some(b)) if *b == *z && b.offset().local_minus_utc() == off && b.naive_utc() == z.naive_utc());
+            if !same {
+                c.fail(&format!("DateTime<FixedOffset> {} does not parse back", form), &format!("{} {} text {:?}", tag, sz(z), txt(x)));
+            }
+        }
+    } else {
+        c.count(&format!("dtf:{},local-outside-range", tag));
+        report_f25(c, z, &dbg, &dsp, f25_reported);
     }
 }
 
@@ -494,7 +669,67 @@ pub fn run(c: &mut Ctx) {
         }
     }
 
+    // every date as a digest: thorough = ALL of NaiveDate::MIN..=MAX in 400-year blocks; quick = one
+    // whole 400-year cycle, both range ends, the sign / width class boundaries
+    {
+        let mut blocks: Vec<(i32, i32)> = vec![];
+        if c.tier == Tier::Thorough {
+            let mut y = MIN_YEAR;
+            while y <= MAX_YEAR {
+                let e = (y + 399).min(MAX_YEAR);
+                blocks.push((y, e));
+                y = e + 1;
+            }
+        } else {
+            blocks.extend([(MIN_YEAR, MIN_YEAR + 1), (-100001, -99998), (-10001, -9998), (-1001, -998), (-101, -98), (-11, 11), (98, 101), (998, 1001)]);
+            blocks.extend([(1600, 1999), (9998, 10001), (99998, 100001), (MAX_YEAR - 1, MAX_YEAR)]);
+        }
+        let mut total = 0u64;
+        let (mut first, mut last) = (None, None);
+        for (k, (y0, y1)) in blocks.iter().enumerate() {
+            let before = if c.tier == Tier::Thorough { last } else { None };
+            let (h, seen, bad, end) = block_date(*y0, *y1, before);
+            c.op(&format!("tx.blockdate {y0} {y1}"), &h.to_string());
+            if let Some((what, detail)) = bad {
+                c.fail(what, &detail);
+            }
+            total += seen;
+            if k == 0 {
+                first = guard(|| NaiveDate::from_yo_opt(*y0, 1)).ok().flatten();
+            }
+            last = end;
+        }
+        c.count_n("date:enumerated-in-digests", total);
+        if first != Some(NaiveDate::MIN) || last != Some(NaiveDate::MAX) {
+            c.fail("NaiveDate exhaustive walk does not run from NaiveDate::MIN to NaiveDate::MAX", &format!("{:?} .. {:?}", first, last));
+        }
+        if c.tier == Tier::Thorough {
+            // the walk is contiguous (succ_opt is checked inside and across the abutting blocks) and complete
+            let days = (NaiveDate::MAX - NaiveDate::MIN).num_days() as u64 + 1;
+            if total != days || total != (super::c01::MAX_DAYS - super::c01::MIN_DAYS + 1) as u64 {
+                c.fail("NaiveDate exhaustive walk did not visit every date", &format!("{} visited, {} days between MIN and MAX", total, days));
+            }
+        }
+    }
+
     // ---------------------------------------------------------------- NaiveTime
+    // every second of the day × the fraction class representatives, leap representation on every second
+    // 59, as digests (both tiers: 1 581 120 values)
+    {
+        let mut total = 0u64;
+        for k in 0..24u32 {
+            let (h, seen, bad) = block_time(k * 3600, k * 3600 + 3599);
+            c.op(&format!("tx.blocktime {} {}", k * 3600, k * 3600 + 3599), &h.to_string());
+            if let Some((what, detail)) = bad {
+                c.fail(what, &detail);
+            }
+            total += seen;
+        }
+        c.count_n("time:enumerated-in-digests", total);
+        if total != (86400 + 1440) * BLOCK_FRACS.len() as u64 {
+            c.fail("NaiveTime exhaustive walk did not visit every second x fraction class", &total.to_string());
+        }
+    }
     for i in 0..n {
         let (t, fcls, lcls, strict) = gen_time(c);
         c.count(&format!("time:frac-{}", fcls));
@@ -624,6 +859,17 @@ pub fn run(c: &mut Ctx) {
         if !local_ok && strict && whole_min {
             report_f25(c, &z, &dbg, &dsp, &mut f25_reported);
         }
+        if !whole_min {
+            // theorem `DateTime_FixedOffset_with_seconds_rejected` (outside the property's side condition):
+            // whatever the time of day and the wall-clock year, `±hh:mm:ss` leaves `:ss` over -> Err(TooLong)
+            for (form, x) in [("Debug", &dbg), ("Display", &dsp)] {
+                c.count("dtf:offset-with-seconds-rejected-TooLong");
+                let got = rd_dtf(txt(x));
+                if got != "err TooLong" {
+                    c.fail(&format!("DateTime<FixedOffset> {} with a seconds offset: FromStr does not answer Err(TooLong)", form), &format!("{} text {:?} -> {}", sz(&z), txt(x), got));
+                }
+            }
+        }
         if strict && whole_min && local_ok {
             for (form, x) in [("Debug", &dbg), ("Display", &dsp)] {
                 let back = guard(|| txt(x).parse::<DateTime<FixedOffset>>().ok());
@@ -685,6 +931,55 @@ pub fn run(c: &mut Ctx) {
             } else if k < 2 {
                 // k = 2 is a leap-second value off second 59 for most offsets: outside the property anyway
                 report_f25(c, &z, &dbg, &dsp, &mut f25_reported);
+            }
+        }
+    }
+
+    // the boundary `fixed_parses_back_iff` / `InRangeSecs` draws, for every whole-minute offset: the last
+    // in-range and the first out-of-range wall-clock second (and the ones a second / a minute to either
+    // side, with the leap representation where the second is 59).  off > 0: wall clock NaiveDate::MAX
+    // 23:59:59.999999999; off < 0: wall clock NaiveDate::MIN 00:00:00.
+    for &off in &whole {
+        if off == 0 {
+            continue;
+        }
+        let tz = FixedOffset::east_opt(off).unwrap();
+        let edge_wall = if off > 0 { NaiveDateTime::MAX } else { NaiveDateTime::MIN };
+        // UTC reading whose wall clock is the edge: edge - off (inside the range by construction)
+        let u1 = edge_wall - chrono::TimeDelta::seconds(off as i64);
+        let out = if off > 0 { 1i64 } else { -1 };
+        for (tag, ds, inside) in [
+            ("F25-edge:last-inside", 0i64, true),
+            ("F25-edge:1s-inside", -out, true),
+            ("F25-edge:60s-inside", -60 * out, true),
+            ("F25-edge:1s-outside", out, false),
+            ("F25-edge:60s-outside", 60 * out, false),
+        ] {
+            let Some(u) = u1.checked_add_signed(chrono::TimeDelta::seconds(ds)) else {
+                c.fail("DateTime<FixedOffset> boundary block: a UTC reading within |offset| of the range end is not representable", &format!("off {} {} ds {}", off, tag, ds));
+                continue;
+            };
+            let mut us = vec![u];
+            if u.time().num_seconds_from_midnight() % 60 == 59 {
+                us.push(u.date().and_time(mk_time(u.time().num_seconds_from_midnight(), u.time().nanosecond() % NS + NS)));
+                us.push(u.date().and_time(mk_time(u.time().num_seconds_from_midnight(), 0)));
+            }
+            for u in us {
+                let z: DateTime<FixedOffset> = tz.from_utc_datetime(&u);
+                check_zoned(c, &z, Some(inside), tag, &mut f25_reported);
+            }
+        }
+    }
+    // the offset carries the wall clock across a year sign / width class: first and last second (leap
+    // representation included) of the class-boundary years, seen from every whole-minute offset
+    for &y in &[MIN_YEAR, -100000, -99999, -10000, -9999, -1000, -1, 0, 1, 9999, 10000, 99999, 100000, MAX_YEAR] {
+        let first = NaiveDate::from_ymd_opt(y, 1, 1).unwrap().and_time(NaiveTime::MIN);
+        let last = NaiveDate::from_ymd_opt(y, 12, 31).unwrap().and_time(mk_time(86399, 1_999_999_999));
+        for &off in &whole {
+            let tz = FixedOffset::east_opt(off).unwrap();
+            for u in [first, last] {
+                let z: DateTime<FixedOffset> = tz.from_utc_datetime(&u);
+                check_zoned(c, &z, None, "class-boundary-year", &mut f25_reported);
             }
         }
     }
@@ -760,19 +1055,39 @@ pub fn run(c: &mut Ctx) {
             }
         }
         vals.extend([NaiveDateTime::MIN, NaiveDateTime::MAX]);
+        let n_zone = vals.len();
+        // a representable `DateTime<Local>` that `Local` itself never builds: a foreign offset put there
+        // by `from_naive_utc_and_offset` (theorem `roundtrip_DateTime_Local_zone_offset`: it reads back as
+        // the same instant with the ZONE's offset, hence as the value only if the two offsets agree)
+        let foreign: Vec<(NaiveDateTime, i32)> = (0..c.n(40, 400))
+            .map(|_| {
+                let d = NaiveDate::from_yo_opt(c.rng.range(1850, 2100) as i32, c.rng.range(1, 365) as u32).unwrap();
+                let secs = c.rng.below(86400) as u32;
+                (d.and_time(mk_time(secs, gen_frac(c).0)), *c.rng.pick(&whole))
+            })
+            .chain([(NaiveDate::from_ymd_opt(2020, 1, 1).unwrap().and_time(NaiveTime::MIN), 3600)])
+            .collect();
         let old = std::env::var("TZ").ok();
         std::env::set_var("TZ", tzname);
         // (value as `<utc> <off>`, Debug, Display, same for the FixedOffset view, FromStr of both texts, round trips)
-        type Row = (String, i32, Text, Text, Text, Text, String, String, bool, bool);
+        // (…, the zone's offset at the value's own instant, the zone's offset at the instant the Debug /
+        // Display text denotes — read through DateTime<FixedOffset>'s FromStr, not DateTime<Local>'s)
+        type Row = (String, i32, Text, Text, Text, Text, String, String, bool, bool, i32, String, String);
         let rows: Vec<Row> = std::thread::spawn(move || {
             vals.iter()
-                .map(|v| {
-                    let l: DateTime<Local> = Local.from_utc_datetime(v);
+                .map(|v| (Local.from_utc_datetime(v), *v))
+                .chain(foreign.iter().map(|(v, o)| (DateTime::<Local>::from_naive_utc_and_offset(*v, FixedOffset::east_opt(*o).unwrap()), *v)))
+                .map(|(l, v)| {
                     let f = l.fixed_offset();
                     let rd = |s: &str| pr(guard(|| s.parse::<DateTime<Local>>()), |b| sz(&b.fixed_offset()));
                     let (dbg, dsp) = (dbg_text(&l), dsp_text(&l));
                     let back = |x: &Text| guard(|| txt(x).parse::<DateTime<Local>>().ok().map(|b| b == l && b.fixed_offset().offset().local_minus_utc() == f.offset().local_minus_utc())) == Ok(Some(true));
-                    (sz(&f), f.offset().local_minus_utc(), dbg.clone(), dsp.clone(), dbg_text(&f), dsp_text(&f), both(&dbg, &rd), both(&dsp, &rd), back(&dbg), back(&dsp))
+                    let zone_at = |x: &Text| match guard(|| txt(x).parse::<DateTime<FixedOffset>>().ok().map(|p| Local.offset_from_utc_datetime(&p.naive_utc()).local_minus_utc())) {
+                        Ok(Some(o)) => o.to_string(),
+                        _ => "none".to_string(),
+                    };
+                    let own = Local.offset_from_utc_datetime(&v).local_minus_utc();
+                    (sz(&f), f.offset().local_minus_utc(), dbg.clone(), dsp.clone(), dbg_text(&f), dsp_text(&f), both(&dbg, &rd), both(&dsp, &rd), back(&dbg), back(&dsp), own, zone_at(&dbg), zone_at(&dsp))
                 })
                 .collect()
         })
@@ -786,8 +1101,30 @@ pub fn run(c: &mut Ctx) {
             c.fail("DateTime<Local> worker thread panicked", tzname);
         }
         let mut f25_local = 0;
-        for (k, (val, off, dbg, dsp, fdbg, fdsp, bdbg, bdsp, back_dbg, back_dsp)) in rows.iter().enumerate() {
-            c.op(&format!("tx.dtl {}", val), &format!("{} | {}", bdbg, bdsp));
+        for (k, (val, off, dbg, dsp, fdbg, fdsp, bdbg, bdsp, back_dbg, back_dsp, own, zdbg, zdsp)) in rows.iter().enumerate() {
+            c.op(&format!("tx.dtl {} {} {}", val, zdbg, zdsp), &format!("{} | {}", bdbg, bdsp));
+            if k < n_zone && own != off {
+                c.fail("DateTime<Local>: the offset of a value built by Local is not the zone's offset at its instant", &format!("TZ={} {} zone says {}", tzname, val, own));
+            }
+            if k >= n_zone {
+                // foreign offset: outside `hloc`; the text is still the FixedOffset text (checked below) and
+                // reads back as the same instant carrying the zone's offset
+                c.count(if own == off { "dtl:foreign-offset-equal-to-the-zone's" } else { "dtl:foreign-offset(outside the Local theorem's hypothesis)" });
+                if dbg != fdbg || dsp != fdsp {
+                    c.fail("DateTime<Local> text differs from the text of its FixedOffset view", &format!("TZ={} {} (foreign offset)", tzname, val));
+                }
+                let utc_part = val.rsplitn(2, ' ').nth(1).unwrap_or("");
+                let want = format!("ok {} {}", utc_part, own);
+                for (form, b) in [("Debug", bdbg), ("Display", bdsp)] {
+                    if !b.ends_with(&want) {
+                        c.fail(&format!("DateTime<Local> {} with a foreign offset does not read back as the same instant with the zone's offset", form), &format!("TZ={} {} -> {} (expected {})", tzname, val, b, want));
+                    }
+                }
+                if own != off && (*back_dbg || *back_dsp) {
+                    c.fail("DateTime<Local> with a foreign offset reads back with that offset", &format!("TZ={} {}", tzname, val));
+                }
+                continue;
+            }
             c.count(if off % 60 != 0 { "dtl:offset-with-seconds(outside property)" } else { "dtl:whole-minute-offset" });
             if dbg != fdbg || dsp != fdsp {
                 c.fail("DateTime<Local> text differs from the text of its FixedOffset view", &format!("TZ={} {} {:?} / {:?} vs {:?} / {:?}", tzname, val, txt(dbg), txt(dsp), txt(fdbg), txt(fdsp)));
